@@ -124,11 +124,48 @@ Theorem C20_only_trivial_fill_writes : forall gs sh p o p',
 Proof. exact run_guards_writes. Qed.
 Print Assumptions C20_only_trivial_fill_writes.
 
-(* ---- the checker run on every implementation result decides the clause it checks *)
+(* ---- the checker run on every implementation result decides the property: computed from the
+   input shape and the observation alone; a rejection means the property fails on that call *)
 Theorem C20_checker_ok : forall alg sh p0 code a b after,
   check_C20_err alg sh p0 code a b after = true <-> (err_justified alg sh p0 code a b = true /\ after = p0).
 Proof. exact check_C20_err_ok. Qed.
 Print Assumptions C20_checker_ok.
+
+Theorem C20_checker_decides : forall alg sh p0 obs after,
+  check_C20 alg sh p0 obs after = true <-> C20_holds alg sh p0 obs after.
+Proof. exact check_C20_iff. Qed.
+Print Assumptions C20_checker_decides.
+
+Theorem C20_checker_rejection_is_failure : forall alg sh p0 obs after,
+  check_C20 alg sh p0 obs after = false -> ~ C20_holds alg sh p0 obs after.
+Proof. exact check_C20_rejects. Qed.
+Print Assumptions C20_checker_rejection_is_failure.
+
+(* a length mismatch alone: accepted only as InputLenMismatch with the array untouched *)
+Theorem C20_checker_mismatch_only : forall alg sh p0 obs after,
+  check_C20 alg sh p0 obs after = true ->
+  mismatched alg sh p0 = true -> too_many_parts alg p0 = false -> negative_weight alg sh = false ->
+  order_too_high alg sh = false ->
+  after = p0 /\ exists a b, obs = ObsErr 1 a b.
+Proof. exact check_C20_mismatch_only. Qed.
+Print Assumptions C20_checker_mismatch_only.
+
+(* Ok / panic / hang on a mismatched call, and a modified array on any violating call, are rejected *)
+Theorem C20_checker_rejects_non_error : forall alg sh p0 obs after,
+  mismatched alg sh p0 = true -> (forall code a b, obs <> ObsErr code a b) ->
+  check_C20 alg sh p0 obs after = false.
+Proof. exact check_C20_rejects_ok_on_mismatch. Qed.
+Theorem C20_checker_rejects_modified : forall alg sh p0 obs after,
+  violation alg sh p0 = true -> after <> p0 -> check_C20 alg sh p0 obs after = false.
+Proof. exact check_C20_rejects_modified. Qed.
+Print Assumptions C20_checker_rejects_modified.
+
+(* the round-2 mutation (Rcb fast path `iter_count == 0 => fill(0); Ok`): rejected *)
+Example C20_checker_rejects_fill_ok :
+  check_C20 0 (mk_shape [WPos; WPos] 3 0 0 0) [7; 7; 7]%N ObsOk [0; 0; 0]%N = false
+  /\ check_C20 0 (mk_shape [WPos; WPos] 3 0 0 0) [7; 7; 7]%N ObsOk [7; 7; 7]%N = false
+  /\ check_C20 0 (mk_shape [WPos; WPos] 3 0 0 0) [7; 7; 7]%N (ObsErr 1 3 2) [7; 7; 7]%N = true.
+Proof. repeat split. Qed.
 
 (* ---- regression: the guard orders of the pinned tree (hand-written copies) let a
    mismatch through; the analysis used above rejects each of them *)
